@@ -193,6 +193,10 @@ func (s *verifGlueSpy) GetMove(ctx context.Context, p *tak.Position) tak.Move {
 		r.mu.Lock()
 		r.AICalls++
 		r.AIAnswer = m
+		if p != r.p {
+			// the searcher must be asked about the position GetMove was called on
+			r.Events = append(r.Events, "ai:other-position")
+		}
 		r.mu.Unlock()
 	}
 	return m
@@ -203,7 +207,7 @@ type VerifGlue struct {
 	F     *Friendly
 	T     *Taktician
 	G     *bot.Game
-	Setup []string // commands sent outside GetMove (greetings, level replies)
+	Setup []string        // commands sent outside GetMove (greetings, level replies)
 	All   []*tak.Position // every position that ever was in the record, in order of creation
 
 	rec        *VerifGlueRec
